@@ -809,6 +809,17 @@ func genC11(tier string, seed uint64) []*c11Case {
 			StartKey:  []byte("a"), EndKey: []byte("m")})
 		cases = append(cases, &c11Case{op: "metarow", infoVal: append([]byte("PBUF"), li...), metaRow: append(append([]byte{}, long...), []byte(",a,7")...)})
 	}
+	// … the same around the limit with a non-default namespace (the name is namespace:qualifier)
+	for _, total := range []int{32761, 32762, 32763, 32764, 32765, 32766, 32767, 32768} {
+		for _, ns := range []string{"n", "namespace"} {
+			qual := bytes.Repeat([]byte("y"), total-len(ns)-1)
+			fq := append(append([]byte(ns), ':'), qual...)
+			li, _ := proto.Marshal(&pb.RegionInfo{RegionId: proto.Uint64(7),
+				TableName: &pb.TableName{Namespace: []byte(ns), Qualifier: qual},
+				StartKey:  []byte("a"), EndKey: []byte("m")})
+			cases = append(cases, &c11Case{op: "metarow", infoVal: append([]byte("PBUF"), li...), metaRow: append(append([]byte{}, fq...), []byte(",a,7")...)})
+		}
+	}
 	for n := 0; n <= 12; n++ {
 		cases = append(cases, &c11Case{op: "incr", infoVal: make([]byte, n)})
 	}
